@@ -1065,6 +1065,26 @@ func (e *SpecEnv) callFunc(fn *ssa.Function, args []*SExpr) Val {
 		vals = append(vals, v)
 	}
 	c := e.ex.L.contractFor(fn)
+	fxx := e.fx
+	if fxx == nil {
+		fxx = &fnExec{ex: e.ex, fn: e.fn}
+	}
+	if c != nil && c.Pure && c.Recursive {
+		return fxx.callRecursivePure(fn, c, vals, e.st)
+	}
+	if c != nil && c.Function && !c.Pure && !c.Inline {
+		// a trusted deterministic function used in a spec: the uninterpreted application itself
+		sig := fn.Signature.Results()
+		var rvals []Val
+		for i := 0; i < sig.Len(); i++ {
+			shape := freshVal(fn.Name()+"_spec", sig.At(i).Type())
+			rvals = append(rvals, fxx.functionalResult(fn, vals, i, shape, e.st))
+		}
+		if len(rvals) == 1 {
+			return rvals[0]
+		}
+		return Val{T: sig, Tuple: rvals}
+	}
 	if c == nil || !(c.Pure || c.Inline) {
 		e.fail("function %s used in a spec is not marked pure", fn.Name())
 	}
